@@ -98,7 +98,7 @@ theorem findSelection_q (q : String) (X : List Sel) (T : String) :
 /-- the insertion point of the child step at `[q]`: `q#<id>` -/
 theorem findIP_q (T U q g : String) (fs1 fs2 hs : List FieldSpec) (i : String) (x : List (String × J)) :
     findIP [q] [QNown T U q g fs1 fs2 hs] (respA q i x) [] = .ok [[pointQ q i]] := by
-  unfold findIP QNown
+  unfold findIP findIPW QNown
   rw [findSelection_q]
   simp [respA, J.lookup, selType, TypeRef.isList, extractID, bind, Except.bind, fmtID, pointQ]
 
@@ -111,11 +111,11 @@ theorem findIP_qg (h : Fam c A B T U q g fs1 fs2 hs) (i i' : String) (a1 a2 a' :
     have : ¬ g = "id" := h.hgid
     simp only [J.lookup, this, ↓reduceIte, aG]
     exact lookup_mid g _ a1 a2 hga
-  unfold findIP QNown
+  unfold findIP findIPW QNown
   rw [findSelection_q]
   simp only [respA, J.lookup, ↓reduceIte, selType, Bool.false_eq_true, TypeRef.isList,
     List.isEmpty_cons, selSub, List.nil_append]
-  unfold findIP
+  unfold findIPW
   rw [findSelection_g h, hlk]
   simp [selType, Gown, TypeRef.isList, extractID, bind, Except.bind, fmtID, pointQ, J.lookup]
 
